@@ -51,6 +51,7 @@ def bulk_entry(kind, i):
     if kind == 11: return [i + 1, ['rtc', 2, 65000 + i % 100, [0, 2, 253, 232, 0] + b3(i)]]
     if kind == 12: return [i + 1, ['srp', i, 100 + i % 3, [10] + b3(i)]]
     if kind == 13: return [i + 1, ['evpn', 5, [0, 2, 0, 1, 0] + b3(i), pat_bytes(10, i), i, i % 129, v6, pat_bytes(16, i + 1), 7]]
+    if kind == 15: return [i + 1, ['mup', 3, [0, 0, 253, 232, 0] + b3(i), i % 33, [10] + b3(i), i, i % 64, [192, 0, 2, 1], None if i % 2 == 0 else [198, 51, 100, 7]]]
     if kind == 14: return [i + 1, ['fs', 1, [0, 0, 253, 232, 0] + b3(i), [['o', 3, [[129, 6]]], ['o', 5, [[3, 1000 + i % 50000], [197, 70000]]]]]]
     raise ValueError(kind)
 
@@ -87,6 +88,9 @@ def nlri_val(n):
         if k == 2: return [12, 2, n[2], n[3], n[4], n[5], n[6], n[7], [] if n[8] is None else [n[8]]]
         return [12] + list(n[1:])
     if t == 'srp': return [13, n[1], n[2], n[3]]
+    if t == 'mup':
+        if n[1] == 3: return [14, 3, n[2], n[3], n[4], n[5], n[6], n[7], [] if n[8] is None else [n[8]]]
+        return [14] + list(n[1:])
     raise ValueError(n)
 
 def nlri_coq(n):
@@ -113,6 +117,13 @@ def nlri_coq(n):
         else: e = 'Ev5 %s %s %s %s %s %s %s' % (cbytes(n[2]), cbytes(n[3]), cN(n[4]), cN(n[5]), cbytes(n[6]), cbytes(n[7]), cN(n[8]))
         return '(NEvpn (%s))' % e
     if t == 'srp': return '(NSrp %s %s %s)' % (cN(n[1]), cN(n[2]), cbytes(n[3]))
+    if t == 'mup':
+        k = n[1]
+        if k == 1: e = 'Mup1 %s %s %s' % (cbytes(n[2]), cN(n[3]), cbytes(n[4]))
+        elif k == 2: e = 'Mup2 %s %s' % (cbytes(n[2]), cbytes(n[3]))
+        elif k == 3: e = 'Mup3 %s %s %s %s %s %s %s' % (cbytes(n[2]), cN(n[3]), cbytes(n[4]), cN(n[5]), cN(n[6]), cbytes(n[7]), copt(None if n[8] is None else cbytes(n[8])))
+        else: e = 'Mup4 %s %s %s %s' % (cbytes(n[2]), cN(n[3]), cbytes(n[4]), cN(n[5]))
+        return '(NMup (%s))' % e
     raise ValueError(n)
 
 def entries_coq(segs):
